@@ -29,8 +29,10 @@ CFG_BATCH = 250  # offset lists per enumerated config-only case
 
 
 DTYPES = {"f8": "<f8", "f4": "<f4", "i8": "<i8", "i4": "<i4", "u2": "<u2"}  # sample dtypes of a stack (case key -> dtype.str)
-# largest |token * scale| a field of that dtype holds exactly, with room for the sums of a flat image (<= 8 layers)
-DTYPE_LIMIT = {"<f8": 2**49, "<f4": 2**20, "<i8": 2**59, "<i4": 2**28, "<u2": 2**13}
+# bound on |token| for which token * scale (scale 1, 1/2, 1/4) is held exactly by a field of that dtype, with room for the exact
+# sum of up to 16 layers (np.mean of float32 layers adds in float32)
+DTYPE_LIMIT = {"<f8": 2**48, "<f4": 2**19, "<i8": 2**58, "<i4": 2**27, "<u2": 2**12}
+MAX_LAYERS = 16
 FLAT_REL32 = 2.0**-22  # np.mean of float32 layers is a float32
 SCALES = (1, 0.5, 0.25)
 
@@ -143,13 +145,12 @@ def payload_ok(fields, enc_layers, fscale):
         lim = DTYPE_LIMIT.get(dt)
         if lim is None:
             return False
-        sc = field_scale(dt, fscale)
         for L in enc_layers:
             for px in L["data"]:
                 v = px[k]
-                if abs(v) * sc >= lim or (dt == "<u2" and v < 0):
+                if abs(v) >= lim or (dt == "<u2" and v < 0):
                     return False
-    return True
+    return len(enc_layers) <= MAX_LAYERS
 
 
 def pick_element(enc, e):
@@ -174,6 +175,17 @@ def flat_close(vals, rats, rel=FLAT_REL):
             if not fclose(float(v), unrat(q), rel):
                 return False
     return True
+
+
+class StepRaised(Exception):
+    """a change of the object that the model performs raised in pewlib"""
+
+
+def real(fn, *a, **kw):
+    try:
+        return fn(*a, **kw)
+    except Exception as ex:
+        raise StepRaised(f"{type(ex).__name__}: {str(ex)[:200]}") from ex
 
 
 class C09(Prop):
@@ -211,7 +223,10 @@ class C09(Prop):
             "(features dtype:<f4 / <i8 / <i4 / <u2, dtype:mixed-fields; 25 % of the fresh reconstructions, half of the histories): "
             "payload = token * scale with scale 1, 1/2 or 1/4 for float fields (payload:fractional: a float stack reconstructed "
             "through an integer buffer would lose the fraction), tokens from 1, from beyond 2^32 (payload:beyond-2^32: a float64 / int64 "
-            "stack squeezed through float32 / int32 would change) or negative")
+            "stack squeezed through float32 / int32 would change) or negative. Sizes beyond the usual (feature layers>5 / lines>6, ~3 %): "
+            "6..16 layers of 1-3 lines, 7..24 lines in one layer kind. The object is made by SRRLaser(...), by SRRLaser.from_list (float64 "
+            "stacks, feature ctor:from_list, ~8 %) or by SRRLaser.from_lasers followed by the assignment of the config (ctor:from_lasers, "
+            "~8 %). Besides get(layer=i) and get(layer=i, flat=True), get(element, layer=i) is read for every layer")
     trusted = [
         "'integer magnification' means spotsize/(speed*scantime) evaluates to an integer in float64 (DESIGN 6a); the driver computes "
         "that float64 value itself from the three inputs (PewModel/Srr.lean `fl`: round to nearest, ties to even, normal range) and the "
@@ -220,7 +235,8 @@ class C09(Prop):
         "is np.round (half-even) of the float64 quotient seconds/scantime, modelled exactly; the SPECIFICATION of the warm-up is half-even "
         "of the exact quotient - when the two can differ (quotient not a float64 and within |x|/2^53 of a tie, hypothesis of "
         "warmup_setter_determined, decided by the driver) the case is counted undetermined",
-        "np.mean over <= 5 integer-valued float64 layers is within 1e-12 relative of the exact mean (flat_is_mean is about the exact mean)",
+        "np.mean over <= 16 layers whose samples are integer multiples of 1/4 below 2^48 is within 1e-12 relative of the exact mean: the "
+        "float sum is exact, only the division rounds (flat_is_mean is about the exact mean)",
         "NumPy slicing, np.repeat, .T, np.zeros and slice assignment behave as documented (modelled step by step in PewModel/Srr.lean); "
         "assignment broadcasting of a length-1 axis is not modelled: for accepted configurations on crossed stacks it cannot occur "
         "(valid_implies_shapes_agree; re-checked on every accepted case: the model answering 'raises' where pewlib reconstructs is a reported difference)",
@@ -253,6 +269,10 @@ class C09(Prop):
         "mean is truncated: the structured flat image of integer fields is not compared (feature 'flat(structured) of an integer "
         "field...'); get(element, flat=True) of the same field returns the float64 mean and IS compared; see notes/TC09.md",
         "np.mean of float32 layers is a float32: the flat image of a '<f4' field is compared at 2^-22 relative",
+        "a history step that replaces laser.data by layers with OTHER element names also assigns the public dict laser.calibration "
+        "(one default Calibration per new name), as a caller has to: SRRLaser.remove pops the removed names from that dict",
+        "a change of the stack that the model of srr.py performs (Stack.apply answers some) but pewlib raises on is reported as a "
+        "difference between model and code (feature history:step-raises), not as an internal error",
         "config-only cases outside the hypotheses of offsets_setter_exact (empty list, denominator < 1, negative numerator) or whose "
         "lcm * numerator does not fit 2^60 are counted as hypothesis-excluded, never compared",
         "a change of the array LAYOUT (field names, order, shape) that keeps from_array(to_array(c)) = c is reported as an "
@@ -283,11 +303,52 @@ class C09(Prop):
             return self.gen_history(rng)
         elif t < 0.47:
             return self.gen_bigden(rng)
+        elif t < 0.50:
+            return self.gen_sizes(rng)
         case = gen_srr(rng, max_vox=9000 if tier == "quick" else 16000, force_valid=False)
         case["nel"] = rng.choice([1, 1, 2, 3])
         case["element"] = rng.randrange(case["nel"])
         self.gen_payload(rng, case, plain=0.75)
+        self.gen_ctor(rng, case)
         return case
+
+    def gen_ctor(self, rng, case):
+        """how the object is made: SRRLaser(...) mostly, SRRLaser.from_list (float64 stacks) or SRRLaser.from_lasers"""
+        r = rng.random()
+        if r < 0.08 and case.get("dtype", "f8") == "f8":
+            case["ctor"] = "from_list"
+        elif r < 0.16:
+            case["ctor"] = "from_lasers"
+
+    def gen_sizes(self, rng):
+        """stacks beyond the usual sizes: 6..16 layers of 1-3 lines, or 7..24 lines in one layer kind (magnification 1-2,
+        at most two sub-pixels per pixel)"""
+        for _ in range(200):
+            M = rng.choice([1, 1, 2])
+            if rng.random() < 0.5:
+                n, l0, l1 = rng.choice([6, 7, 8, 9, 12, 16]), rng.randint(1, 3), rng.randint(1, 3)
+            else:
+                n, l0, l1 = rng.choice([2, 2, 3]), rng.randint(7, 24), rng.randint(1, 8)
+                if rng.random() < 0.5:
+                    l0, l1 = l1, l0
+            pairs = rng.choice([[[0, 1]], [[0, 2], [1, 2]], [[1, 2]], [[1, 1], [0, 1]], [[0, 2], [1, 2], [3, 2]]])
+            size = math.lcm(*[d for _, d in pairs])
+            p = math.lcm(size, M) // M
+            ov = max(o * size // d for o, d in pairs)
+            if (l0 * M * p + ov) * (l1 * M * p + ov) * n > 9000:
+                continue
+            w = rng.choice([0, 0, 1, 4])
+            spotsize, speed, scantime = int_mag_triple(rng, M)
+            case = {"spotsize": spotsize, "speed": speed, "scantime": scantime, "warmup": w * scantime, "pairs": pairs, "mag": M, "n": n,
+                    "shapes": [[l0, w + l1 * M + rng.choice([0, 0, 2])], [l1, w + l0 * M + rng.choice([0, 1])]], "short": None,
+                    "wmode": "exact", "nel": rng.choice([1, 1, 2]), "element": rng.randrange(2)}
+            self.gen_payload(rng, case, plain=0.7)
+            if rng.random() < 0.3:
+                case["kind"], case["order"] = "history", "std"
+                case["steps"] = [rng.choice([{"op": "pop"}, {"op": "append"}, {"op": "replace", "layer": n - 1}, {"op": "rename", "map": [["A", "D"]]},
+                                             {"op": "setdata", "n": rng.choice([2, 5, 6, 11]), "via": "list"}])]
+            return case
+        raise core.InternalError("could not generate a large SRR case")
 
     def gen_cfg_only(self, rng):
         """no stack: one configuration object that is given a history of offset lists"""
@@ -346,6 +407,7 @@ class C09(Prop):
         case["element"] = rng.randrange(3)
         case["kind"] = "history"
         self.gen_payload(rng, case, plain=0.5)
+        self.gen_ctor(rng, case)
         M, n = case["mag"], case["n"]
         (l0, s0), (l1, s1) = case["shapes"]
         pairs_cur = case["pairs"]
@@ -631,8 +693,22 @@ class C09(Prop):
         if mag != float(case["mag"]):
             raise core.InternalError("generator: magnification is not the intended float integer")
         cfg = make_srr_cfg(case)
-        laser = SRRLaser(layers, config=cfg)
-        st = {"fields": fields, "enc": enc, "sops": [], "fscale": fscale, "fresh": fresh,
+        ctor = case.get("ctor", "init")
+        if ctor == "from_list" and all(f[1] == "<f8" for f in fields):
+            # the classmethod builds float64 structured layers from one plain array per element and layer
+            laser = SRRLaser.from_list([f[0] for f in fields], [[np.array(a[f[0]]) for f in fields] for a in layers], config=cfg)
+        elif ctor == "from_lasers":
+            # stacked from one Laser per layer (raster parameters of the first one, default warm-up and offsets), then given the config
+            from pewlib.config import Config
+            from pewlib.laser import Laser
+
+            raster = Config(spotsize=case["spotsize"], speed=case["speed"], scantime=case["scantime"])
+            laser = SRRLaser.from_lasers([Laser(a, config=raster) for a in layers])
+            laser.config = cfg
+        else:
+            ctor = "init"
+            laser = SRRLaser(layers, config=cfg)
+        st = {"ctor": ctor, "fields": fields, "enc": enc, "sops": [], "fscale": fscale, "fresh": fresh,
               "low": 1 if abs(int(case.get("base", 1))) >= 2**30 else None}
         if kind == "history":
             return self.eval_history(case, ctx, laser, st)
@@ -738,12 +814,19 @@ class C09(Prop):
                 impl["recon"] = {"raises": type(ex).__name__, "msg": str(ex)[:200]}
         impl["offsets_exact"] = setter_exact
         impl["layers"], impl["layers_flat"] = [], []
+        impl["layers_element"] = []
         for i in range(n):
             for key, kw in (("layers", {}), ("layers_flat", {"flat": True})):
                 try:
                     impl[key].append(enc2(laser.get(layer=i, **kw), names, scales))
                 except Exception as ex:
                     impl[key].append({"raises": type(ex).__name__, "msg": str(ex)[:200]})
+            try:  # get(element, layer=i): that element of the layer
+                le = laser.get(names[e], layer=i, flat=bool(i % 3 == 1))
+                impl["layers_element"].append({"shape": list(le.shape), "data": [tokens(row, scales[e]) for row in le]} if le.ndim == 2
+                                              else {"shape": list(le.shape)})
+            except Exception as ex:
+                impl["layers_element"].append({"raises": type(ex).__name__, "msg": str(ex)[:200]})
         # the stack itself, read from the public list `laser.data` (against the model of the changes made to it)
         try:
             impl["stack"] = {"fields": [descr_of(a.dtype) for a in laser.data],
@@ -810,7 +893,10 @@ class C09(Prop):
                 return True
             return same(o, v)
 
-        layers_spec_ok = same(impl["layers"], spec["layers"]) and same(impl["layers_flat"], spec["layers"])
+        spec["layers_element"] = [pick_element(L, e) if isinstance(L, dict) else L for L in rep["layer_spec"]]
+        model["layers_element"] = [pick_element(L, e) if isinstance(L, dict) else L for L in rep["layer_model"]]
+        layers_spec_ok = (same(impl["layers"], spec["layers"]) and same(impl["layers_flat"], spec["layers"])
+                          and same(impl["layers_element"], spec["layers_element"]))
         rt_same = isinstance(impl["config"], dict) and "raises" not in impl["config"] and same(impl["roundtrip"], impl["config"])
         # acceptance is compared in BOTH directions (theorems valid_iff_spec / valid_iff_evaluable): accepted iff the geometric
         # model can be evaluated.  (When float rounding decides the warm-up in samples the case is undetermined anyway.)
@@ -819,7 +905,7 @@ class C09(Prop):
         spec["offsets_exact"] = model["offsets_exact"] = None if setter_exact is None else True
         model_ok = (valid == (rep["valid"] is True) and recon_ok(model["recon"], rep["flat_model"])
                     and same(impl["layers"], model["layers"]) and same(impl["layers_flat"], model["layers_flat"])
-                    and same(impl["stack"], model["stack"])
+                    and same(impl["layers_element"], model["layers_element"]) and same(impl["stack"], model["stack"])
                     and (not (valid and "data" in impl.get("recon", {})) or same(impl["recon_fields"], fields))
                     and agrees(impl["config"], model["config"]) and agrees(impl["roundtrip"], model["roundtrip"]))
         if arrays:
@@ -861,6 +947,12 @@ class C09(Prop):
                 feats |= {"dtype:" + d for d in dts}
                 if len(dts) > 1:
                     feats.add("dtype:mixed-fields")
+            if st.get("ctor", "init") != "init":
+                feats.add("ctor:" + st["ctor"])
+            if n > 5:
+                feats.add("layers>5")
+            if max(l0, l1) > 6:
+                feats.add("lines>6")
             if any(k != "f" for k in kinds):
                 feats.add("flat(structured) of an integer field: truncated by pewlib, not compared")
             if st["fscale"] != 1 and "f" in kinds:
@@ -896,7 +988,14 @@ class C09(Prop):
         hfeats = set()
         steps = case.get("steps", [])
         for k, stp in enumerate(steps):
-            r = self.do_step(stp, case2, ctx, laser, st, cur, states, hfeats)
+            try:
+                r = self.do_step(stp, case2, ctx, laser, st, cur, states, hfeats)
+            except StepRaised as ex:
+                # pewlib raised where the model of srr.py performs the change: reported as a difference between model and code
+                done = {"states": [x["impl"] for x in states]}
+                return outcome({**done, "step": k, "raises": str(ex)}, {"states": [x["model"] for x in states], "step": k, "performed": True},
+                               {"states": [x["spec"] for x in states]}, spec_ok=all(x["spec_ok"] for x in states), model_ok=False,
+                               features=["history:step-raises"], note=f"step {k} ({stp['op']}) raises {ex}")
             if r == "excluded":
                 return excluded
             if stp.get("obs") or k == len(steps) - 1:
@@ -911,7 +1010,7 @@ class C09(Prop):
         feats = set()
         if all(x["valid"] and "data" in x["impl"].get("recon", {}) for x in states):
             feats = {"history", f"history:order-{order}", f"history:steps{len(steps)}", f"history:observed{len(states)}x"} | hfeats
-            feats |= {f for f in states[-1]["feats"] if f.startswith(("mag", "layers", "elements", "dtype:", "payload:"))}
+            feats |= {f for f in states[-1]["feats"] if f.startswith(("mag", "layers", "elements", "dtype:", "payload:", "ctor:", "lines"))}
         elif not all(x["valid"] for x in states):
             feats = {"history:rejected"}
         return outcome(impl, model, spec, spec_ok=all(x["spec_ok"] for x in states), model_ok=all(x["model_ok"] for x in states),
@@ -985,7 +1084,7 @@ class C09(Prop):
                 return "excluded"
             if not self.stack_step(ctx, st, cur, {"op": "rename", "map": mp}):
                 return "excluded"
-            laser.rename({a: b for a, b in mp})
+            real(laser.rename, {a: b for a, b in mp})
             hfeats |= {"history:rename", "history:element-set-change"}
             if any(b in names for _, b in mp):
                 hfeats.add("history:rename-swap-or-chain")
@@ -993,7 +1092,7 @@ class C09(Prop):
             rm = [str(x) for x in stp["names"]]
             if not self.stack_step(ctx, st, cur, {"op": "remove", "names": rm}):
                 return "excluded"
-            laser.remove(rm[0] if len(rm) == 1 and stp.get("as_str") else rm)
+            real(laser.remove, rm[0] if len(rm) == 1 and stp.get("as_str") else rm)
             hfeats |= {"history:remove", "history:element-set-change"}
         elif op == "add":
             dt = DTYPES.get(stp.get("dtype", "f8"))
@@ -1009,7 +1108,7 @@ class C09(Prop):
                 encs.append({"rows": rows, "cols": cols, "data": [px[0] for px in got[1]["data"]]})
             if not self.stack_step(ctx, st, cur, {"op": "add", "name": name, "dtype": dt, "data": encs}):
                 return "excluded"
-            laser.add(name, arrs)
+            real(laser.add, name, arrs)
             hfeats |= {"history:add", "history:element-set-change"}
             if any(f[1] != dt for f in fields):
                 hfeats.add("history:dtype-change")
@@ -1044,6 +1143,11 @@ class C09(Prop):
             else:
                 laser.data = new
                 hfeats.add("history:setdata-list")
+            if [f[0] for f in fields2] != names:
+                # other elements: the caller keeps the public calibration dict in step (SRRLaser.remove pops from it)
+                from pewlib.calibration import Calibration
+
+                laser.calibration = {x: Calibration() for x in nm2}
             hfeats.add("history:setdata")
             if [f[0] for f in fields2] != names:
                 hfeats |= {"history:setdata:names", "history:element-set-change"}
